@@ -23,6 +23,8 @@ Definition issued_of (e : event) : list N :=
   | EvSent None reported _ => [reported]
   | EvSent (Some _) _ _ => []
   | EvSendErr _ between => between
+  | EvAbandoned None serial _ => [serial]      (* handed to the caller by ctx.serial(), never to be reused *)
+  | EvAbandoned (Some _) _ _ => []
   | EvSentResumed None between reported _ => reported :: between   (* its own serial was taken first *)
   | EvSentResumed (Some _) between _ _ => between
   end.
@@ -35,6 +37,8 @@ Definition sent_ok (e : event) : Prop :=
       (forall p, preset = Some p -> reported = p) /\ wire_serial hb = Some reported
   | EvSentResumed preset _ reported hb =>
       (forall p, preset = Some p -> reported = p) /\ wire_serial hb = Some reported
+  | EvAbandoned preset serial hb =>      (* whatever part of the header went out carries this serial *)
+      (forall p, preset = Some p -> serial = p) /\ wire_serial hb = Some serial
   | _ => True
   end.
 
@@ -47,7 +51,7 @@ Definition serials_spec (evs : list event) : Prop :=
 Definition op_wf (o : op) : Prop :=
   match o with
   | OpAlloc => True
-  | OpSend m | OpSendResumed m _ => forall p, dh_serial (msg_dyn m) = Some p -> 0 < p < 2^32
+  | OpSend m | OpSendResumed m _ | OpSendAbandoned m _ => forall p, dh_serial (msg_dyn m) = Some p -> 0 < p < 2^32
   end.
 
 (* number of serials a history takes from the counter *)
@@ -55,7 +59,7 @@ Definition fresh (m : message) : N := match dh_serial (msg_dyn m) with None => 1
 Definition serials_taken (o : op) : N :=
   match o with
   | OpAlloc => 1
-  | OpSend m => fresh m
+  | OpSend m | OpSendAbandoned m _ => fresh m
   | OpSendResumed m k => fresh m + N.of_nat k
   end.
 Definition nallocs (ops : list op) : N := fold_right (fun o n => serials_taken o + n) 0 ops.
@@ -359,7 +363,7 @@ Section Proofs.
        /\ in_range (serial_counter c) (serial_counter c') (issued_of e) /\ sent_ok e)
     \/ (2^32 <= serial_counter c + serials_taken o /\ step hdr_fields c o = Panic).
   Proof.
-    intros Hc Hw. destruct o as [|m|m k]; cbn [step serials_taken].
+    intros Hc Hw. destruct o as [|m|m k|m how]; cbn [step serials_taken].
     - destruct (alloc_serial_spec c Hc) as [[L ->]|[E ->]]; cbn [bind]; [left|right; split; [lia|reflexivity]].
       split; [exact L|]. eexists. eexists. split; [reflexivity|].
       split; [unfold conn_ok in *; cbn [serial_counter]; lia|]. cbn [serial_counter issued_of sent_ok].
@@ -395,6 +399,19 @@ Section Proofs.
           eapply in_range_cons; [| |exact R]; lia.
       + eexists. eexists. split; [reflexivity|]. split; [exact Hc'|]. split; [lia|].
         cbn [issued_of sent_ok]. split; [eapply in_range_widen; [| |exact R]; lia|exact I].
+      - cbn [op_wf] in Hw.
+      destruct (send_message_cases c m Hc Hw) as [(L & c' & x & -> & Hc' & Hn & Hx)|(F & E & ->)]; cbn [bind];
+        [left|right; split; [lia|reflexivity]].
+      split; [exact L|]. destruct x as [x|].
+      + destruct Hx as (X1 & X2 & X3 & X4 & X5).
+        eexists. eexists. split; [reflexivity|]. split; [exact Hc'|]. split; [exact Hn|].
+        rewrite X1. cbn [issued_of sent_ok]. unfold fresh in *.
+        destruct (dh_serial (msg_dyn m)) as [p|].
+        * split; [apply in_range_nil|]. split; [intros q Hq; inversion Hq as [Hq']; rewrite <- Hq'; exact X4|exact X5].
+        * split; [|split; [intros q Hq; discriminate|exact X5]]. rewrite X4. cbv beta iota in Hn.
+          apply (in_range_cons _ (serial_counter c')); [lia|lia|apply in_range_nil].
+      + eexists. eexists. split; [reflexivity|]. split; [exact Hc'|]. split; [exact Hn|].
+        cbn [issued_of sent_ok]. split; [apply in_range_nil|exact I].
   Qed.
 
   (* in particular for a send that is suspended, sees k allocations, and is resumed: the serial of the
@@ -455,6 +472,39 @@ Section Proofs.
       try lia; eauto.
   Qed.
 
+  (* what k calls of alloc_serial return and leave behind, explicitly *)
+  Lemma alloc_n_serials k : forall c c' ss, alloc_n k c = Ok (c', ss) ->
+    ss = map (fun i => serial_counter c + N.of_nat i) (seq 0 k)
+    /\ c' = {| header_buf := header_buf c; serial_counter := serial_counter c + N.of_nat k |}.
+  Proof.
+    induction k as [|k IH]; intros c c' ss; cbn [alloc_n].
+    - intros H. inversion H; subst. split; [reflexivity|]. destruct c' as [hb n]. cbn [header_buf serial_counter N.of_nat]. f_equal; lia.
+    - unfold alloc_serial. destruct (_ <? _); cbn [bind]; [|discriminate].
+      destruct (alloc_n k _) as [[c1 ss1]| | | |] eqn:E; cbn [bind]; try discriminate.
+      intros H. inversion H; subst. apply IH in E. destruct E as [-> ->]. cbn [serial_counter header_buf]. split.
+      + cbn [seq map]. f_equal; [f_equal; lia|]. rewrite <- seq_shift, map_map. apply map_ext. intros i. lia.
+      + f_equal. lia.
+  Qed.
+
+  Lemma last_map_seq (f : nat -> N) k d : last (map f (seq 0 (S k))) d = f k.
+  Proof. rewrite seq_S, map_app. cbn [map Nat.add]. apply last_last. Qed.
+
+  (* alloc_many k = k times alloc_serial: same connection afterwards, its serial = the last one returned, same panic *)
+  Theorem alloc_many_spec : forall k c, conn_ok c -> 1 <= k ->
+    match alloc_n (N.to_nat k) c with
+    | Ok (c', ss) => alloc_many k c = Ok (c', last ss 0)
+    | Panic => alloc_many k c = Panic
+    | _ => False
+    end.
+  Proof.
+    intros k c Hc Hk. unfold alloc_many.
+    destruct (alloc_n_spec (N.to_nat k) c Hc) as [(L & c' & ss & E & _)|(L & E)]; rewrite E.
+    - rewrite N2Nat.id in L. destruct (N.ltb_spec (serial_counter c + k) (2^32)) as [G|G]; [|lia].
+      apply alloc_n_serials in E. destruct E as [-> ->]. rewrite N2Nat.id. f_equal. f_equal.
+      destruct (N.to_nat k) as [|n] eqn:En; [lia|]. rewrite last_map_seq. lia.
+    - rewrite N2Nat.id in L. destruct (N.ltb_spec (serial_counter c + k) (2^32)) as [G|G]; [lia|reflexivity].
+  Qed.
+
   (* ---------------------------------------------------------------- top-level statements *)
 
   Theorem serials_fresh_increasing : forall ops c' evs, Forall op_wf ops ->
@@ -493,6 +543,19 @@ End Proofs.
 
 Theorem make_response_spec : forall call, reply_spec call (make_response call).
 Proof. intros call. unfold reply_spec, is_reply_type. cbn. auto. Qed.
+
+(* send_hello accepts exactly the replies that carry the serial of its Hello; a reply built by
+   make_response from the received Hello header is one *)
+Theorem hello_correlation : forall serial resp,
+  hello_matches serial resp = true <-> dh_response_serial resp = Some serial.
+Proof.
+  intros serial resp. unfold hello_matches. destruct (dh_response_serial resp) as [s|]; [|split; discriminate].
+  destruct (N.eqb_spec s serial) as [E|E]; split; intros H; congruence.
+Qed.
+
+Theorem hello_reply_accepted : forall call serial, dh_serial call = Some serial ->
+  hello_matches serial (msg_dyn (make_response call)) = true.
+Proof. intros call serial H. apply hello_correlation. cbn. exact H. Qed.
 
 Lemma make_error_response_spec : forall call name text r,
   make_error_response call name text = Ok r -> reply_spec call r /\ dh_error_name (msg_dyn r) = Some name.
